@@ -119,6 +119,26 @@ def pmap(fn, args, workers=None):
     return res
 
 
+def library_exception(e):
+    """If the exception was raised INSIDE the library under test (innermost frame in REPO/qubovert) while a check was
+    handling a case, return (signature, message): the library rejected or crashed on an input that the check -- silent on the
+    unchanged tree with exactly the same input -- treats as valid.  Otherwise None (a bug of the harness)."""
+    from .paths import REPO
+    tb = traceback.extract_tb(e.__traceback__)
+    if not tb:
+        return None
+    last = tb[-1]
+    root = os.path.join(os.path.realpath(REPO), "qubovert") + os.sep
+    if not os.path.realpath(last.filename).startswith(root):
+        return None
+    where = "%s:%d in %s" % (os.path.relpath(os.path.realpath(last.filename), os.path.realpath(REPO)), last.lineno, last.name)
+    harness = [f for f in tb if "/vt/" in f.filename]
+    via = (" (called from %s:%d)" % (os.path.basename(harness[-1].filename), harness[-1].lineno)) if harness else ""
+    return ("library-raises|%s|%s" % (type(e).__name__, last.name),
+            "the library raised %s(%s) at %s%s on an input this check passes to it on the unchanged tree without error"
+            % (type(e).__name__, str(e)[:200], where, via))
+
+
 def explore_cases(ctx, gen, check, nshards=None, label=""):
     """Engine A driver.  gen() yields JSON-able cases; check(case, stats) records into stats.
 
@@ -142,9 +162,12 @@ def explore_cases(ctx, gen, check, nshards=None, label=""):
                 check(case, st)
             except HarnessError:
                 raise
-            except Exception:
-                raise HarnessError("check crashed on case %s\n%s" % (json.dumps(case, default=str)[:2000],
-                                                                      traceback.format_exc()))
+            except Exception as e:
+                lib = library_exception(e)
+                if lib is None:
+                    raise HarnessError("check crashed on case %s\n%s" % (json.dumps(case, default=str)[:2000],
+                                                                          traceback.format_exc()))
+                st.violation(lib[0], case, "%s %s: %s" % (ctx.pid, json.dumps(case, default=str)[:300], lib[1]))
         return st
 
     t0 = time.time()
@@ -220,7 +243,15 @@ def do_replay(path, as_json=False):
     with open(path) as f:
         rec = json.load(f)
     mod = importlib.import_module("vt.checks." + rec["property"].lower())
-    found = mod.replay(rec["case"])
+    try:
+        found = mod.replay(rec["case"])
+    except HarnessError:
+        raise
+    except Exception as e:
+        lib = library_exception(e)
+        if lib is None:
+            raise
+        found = [(lib[0], "%s %s: %s" % (rec["property"], json.dumps(rec["case"], default=str)[:300], lib[1]))]
     found = [[s, m] for s, m in found]
     if as_json:
         print("REPLAY-RESULT " + json.dumps({"violations": found}, default=str))
